@@ -35,6 +35,14 @@ def worker_init():
     sys.stderr = open(os.devnull, "w")
 
 
+# the three 5-leaf binary shapes up to isomorphism (the tuples of leaf syntenies run over every arrangement anyway)
+FIVE_LEAF_SHAPES = [
+    (None, (None, (None, (None, None)))),
+    ((None, None), (None, (None, None))),
+    (((None, None), (None, None)), None),
+]
+
+
 def slices(tier):
     core = [c for c in spaces.CV_CORE if spaces.coherent(c)]
     o3 = spaces.ordered_syntenies(3)
@@ -53,6 +61,18 @@ def slices(tier):
             # compatible root orders), free duplications
             ("O5chainx1x{ac,bc,abc,b}", [(sh, None) for sh in spaces.chain_shapes(5)],
              [("a", "c"), ("b", "c"), ("a", "b", "c"), ("b",)], [(0, 0, 1, 1, 1), core[0]], False),
+            # FOUR families (the first size at which a synteny can have a hole with genes on both sides of it): every tuple of
+            # subsequences of abcd on 3 object leaves, and the three 5-leaf shapes (up to isomorphism) over {a, d, abd, acd,
+            # abcd}, on one species: runs lost across a family the parent lacks, free end runs of partial copies
+            ("O3x1x4s", spaces.shape_pairs(3, 1, min_obj=3), spaces.subsequence_syntenies(4), [core[0], core[4]], False),
+            ("O5x1x{a,d,abd,acd,abcd}", [(sh, None) for sh in FIVE_LEAF_SHAPES],
+             [("a",), ("d",), ("a", "b", "d"), ("a", "c", "d"), ("a", "b", "c", "d")], [core[0]], False),
+            # one family, 4 object leaves on 2 and on 4 species leaves, transfers dearer than a duplication plus the losses of
+            # one lifted node (yet sometimes cheaper than the cascade of lifted ancestors), spe > dup
+            ("O4x2x1/dear-transfer", spaces.shape_pairs(4, 2, min_obj=4, min_sp=2), spaces.ordered_syntenies(1),
+             [(0, 1, 6, 1, 1), (2, 0, 3, 1, 0), (0, 1, 4, 1, 1)], False),
+            ("O4x4x1/dear-transfer", spaces.shape_pairs(4, 4, min_obj=4, min_sp=4), spaces.ordered_syntenies(1),
+             [(0, 1, 6, 1, 1)], False),
         ]
     full = core + [c for c in EXTRA_VECTORS if spaces.coherent(c)]
     return [
